@@ -40,6 +40,11 @@ def classes(tier):
         [U["hertz"], unit("1/s", "decltype(au::pow<-1>(au::Seconds{}))", d(T=-1)), model.prefixed(P["Kilo"], U["becquerel"])],
         [model.prefixed(P["Kilo"], U["grams"]), U["pounds_mass"]],
         [U["celsius"], U["kelvins"], U["fahrenheit"]],      # units with a non-trivial origin (point semantics differ)
+        # rational powers with a numerator other than 1 (the dimension of RatioPow<B,N,D> must use N): L^(3/2) vs L^(1/2)
+        [unit("in^(3/2)", "decltype(au::root<2>(au::pow<3>(au::Inches{})))", d(L=Fr(3, 2)), model.vpow(U["inches"].mag, Fr(3, 2))),
+         unit("rt(m^3)", "decltype(au::root<2>(au::pow<3>(au::Meters{})) * au::mag<5>())", d(L=Fr(3, 2)), model.mag_int(5))],
+        [unit("rt(in)", "decltype(au::root<2>(au::Inches{}))", d(L=Fr(1, 2)), model.vpow(U["inches"].mag, Fr(1, 2))),
+         unit("rt(ft)", "decltype(au::root<2>(au::Feet{}))", d(L=Fr(1, 2)), model.vpow(U["feet"].mag, Fr(1, 2)))],
     ]
     if tier == "thorough":
         seen = {model.dim_key(c[0].dim) for c in cls}
@@ -97,7 +102,7 @@ def check(run):
     # thorough: the 10 core classes get 4 reps on all six configurations; the extended classes (one per remaining
     # library dimension) get rep double on the two corner configurations; see the sizing note in DESIGN.md section 13
     reps_neg = ["double", "int32_t", "uint8_t"] if tier == "quick" else ["double", "int32_t", "uint8_t", "int64_t"]
-    ncore = 11
+    ncore = 13
     probes20, probes = [], []     # C++20-only probes kept apart
 
     core_names = set(u.name for c in cls[:ncore] for u in c)
